@@ -220,7 +220,7 @@ def run_C08(tier, seed):
     res.append(stages.api_stage("C08", "batch", tier, seed, groups=("fm",)))
     # long batches of distinct proofs (more members than the weight generator has 64-byte blocks, more than one chunk): every
     # member of every chunk gets its own non-zero output of a generator built after all members of that chunk contributed
-    res.append(stages.long_batch_stage("C08", "long-weights", 66 if q else 262, seed))
+    res.append(stages.long_batch_stage("C08", "long-weights", 258 if q else 515, seed))
     if not q:
         res.append(stages.long_batch_stage("C08", "long-arith", 70, seed, weights_only=False, mode="RecoverAndVerify"))
     return res
